@@ -231,6 +231,18 @@ def _decide(test, path):
                                 ast.ListComp, ast.SetComp, ast.DictComp,
                                 ast.JoinedStr, ast.Lambda)):
                 isnone = False
+            if isnone is None and isinstance(a, (ast.Name, ast.Attribute)):
+                # a value the path has already dereferenced in a decision it
+                # took (x[0] <= v, x.attr) is not None here
+                t = src(a)
+                for _n, _pol, prev in path.conds:
+                    for x in ast.walk(prev):
+                        if isinstance(x, (ast.Subscript, ast.Attribute)) \
+                                and src(x.value) == t:
+                            isnone = False
+                            break
+                    if isnone is False:
+                        break
             if isnone is not None:
                 return isnone if isinstance(test.ops[0], ast.Is) else \
                     not isnone
@@ -252,6 +264,37 @@ def _names_bound(stmts):
         for n in ast.walk(s):
             if isinstance(n, ast.Name) and isinstance(n.ctx, ast.Store):
                 out.add(n.id)
+    return out
+
+
+def _carried_names(stmts):
+    out = set()
+    if stmts and isinstance(stmts[-1], (ast.Break, ast.Return, ast.Raise)):
+        return out
+    for st in stmts:
+        if isinstance(st, (ast.If, ast.For, ast.While, ast.With, ast.Try,
+                           ast.AsyncFor, ast.AsyncWith)):
+            for fld in ('body', 'orelse', 'finalbody'):
+                out |= _carried_names(getattr(st, fld, None) or [])
+            for h in getattr(st, 'handlers', None) or []:
+                out |= _carried_names(h.body)
+                if h.name:
+                    out.add(h.name)
+            for it in getattr(st, 'items', None) or []:
+                if it.optional_vars is not None:
+                    out |= {x.id for x in ast.walk(it.optional_vars)
+                            if isinstance(x, ast.Name)}
+            if isinstance(st, (ast.For, ast.AsyncFor)):
+                out |= {x.id for x in ast.walk(st.target)
+                        if isinstance(x, ast.Name)}
+        elif isinstance(st, (ast.FunctionDef, ast.AsyncFunctionDef,
+                             ast.ClassDef)):
+            out.add(st.name)
+        else:
+            for n in ast.walk(st):
+                if isinstance(n, ast.Name) and isinstance(
+                        n.ctx, (ast.Store, ast.Del)):
+                    out.add(n.id)
     return out
 
 
@@ -412,30 +455,40 @@ class Walker(object):
             return out
         if isinstance(st, (ast.For, ast.AsyncFor, ast.While)):
             bound = _names_bound([st])
+            # names that can carry a value from one iteration to the next:
+            # bound on some way through the body that goes on iterating
+            # (a store in a block that ends in break / return / raise is
+            # seen only by the code after the loop, on that exit)
+            carried = _carried_names(st.body)
+            if isinstance(st, (ast.For, ast.AsyncFor)):
+                carried |= {x.id for x in ast.walk(st.target)
+                            if isinstance(x, ast.Name)}
             for p in paths:
                 if isinstance(st, ast.While):
                     p.loops.append((st, subst(st.test, p.env)))
                 else:
                     p.loops.append((st, subst(st.iter, p.env)))
-                # body once, on a side copy: stores and nested decisions are
-                # recorded on the path, raising / returning side paths end
-                env0 = p.env
-                env = dict(env0)
-                for nm in bound:
+                # body once, from the state "some iterations done": stores
+                # and decisions are recorded on the path, raising /
+                # returning side paths end
+                env = dict(p.env)
+                for nm in carried:
                     env[nm] = None
                 p.env = env
                 self.exits.append([])
                 inner = self.block(st.body, [p])
-                inner = inner + self.exits.pop()
-                # continue with one representative (the first live one) -
-                # loop bodies that fork keep their forks
+                left = self.exits.pop()
+                # normal end of the loop: every iteration went through
                 for q in inner:
                     env = dict(q.env)
-                    for nm in bound:
+                    for nm in carried:
                         env[nm] = None
                     q.env = env
                 inner = self.block(st.orelse, inner) if st.orelse else inner
+                # break (and, approximately, continue): the state at the
+                # exit is the state after the loop
                 out.extend(inner)
+                out.extend(left)
             return out
         if isinstance(st, (ast.With, ast.AsyncWith)):
             for p in paths:
